@@ -36,9 +36,9 @@ impl WaitSlot {
     pub(super) fn notify(&self) {
         #[cfg(feature = "verif-hooks")]
         crate::verif::rt::pt1("notify", self as *const Self as usize);
-        #[cfg(feature = "verif-hooks")]
-        crate::verif::rt::unpark(self as *const Self as usize);
         if let Some(thread) = self.thread.get() {
+            #[cfg(feature = "verif-hooks")]
+            crate::verif::rt::unpark(self as *const Self as usize);
             thread.unpark();
         }
     }
